@@ -772,7 +772,10 @@ static void genGarbage(vh::Rng& r, long maxVerts, int minRing, Garbage& G) {
   double maxAbs = 0;
   for (auto& sp : keep)
     for (auto& v : sp) maxAbs = std::max({maxAbs, std::abs(v.x), std::abs(v.y)});
-  switch (r.range(0, 7)) {
+  // a huge epsilon makes every ear test scan every vertex (quadratic): keep
+  // those for inputs of moderate size so the stage stays bounded by case count
+  static const int smallEps[4] = {0, 1, 2, 6};
+  switch (nTot > 150 ? smallEps[r.below(4)] : r.range(0, 7)) {
     case 0: G.eps = 0; break;
     case 1: G.eps = 1e-300; break;
     case 2: G.eps = 1e-12 * maxAbs; break;
